@@ -873,6 +873,9 @@ def kdt_match(x, y, K=15, distance_upper_bound=np.inf):
     from scipy import spatial
     kdt = spatial.cKDTree(y)
     D, inds = kdt.query(x, k=K, distance_upper_bound=distance_upper_bound)
+    if D.ndim == 1:
+        # scipy squeezes the neighbour axis when k=1
+        D, inds = D[:, None], inds[:, None]
 
     II = np.zeros_like(inds)
     selected = []
@@ -931,16 +934,15 @@ def _unique_inds(ar):
 
     """
     ar = np.asanyarray(ar).flatten()
-    ar.sort()
-    aux = ar
+    aux = np.sort(ar)
 
     mask = np.empty(aux.shape, dtype=np.bool_)
     mask[:1] = True
     mask[1:] = aux[1:] != aux[:-1]
 
-    ar_inds = [np.where(ar == ii)[0] for ii in ar[mask]]
+    ar_inds = [np.where(ar == ii)[0] for ii in aux[mask]]
 
-    return ar[mask], ar_inds
+    return aux[mask], ar_inds
 
 
 ###################################################
